@@ -96,12 +96,16 @@ Definition fwd_headers (h : header) : header :=
   let h3 := if nonempty ut then hset k_upgrade ut (hset k_connection (bs "Upgrade"%string) h2) else h2 in
   if hhas h3 k_user_agent then h3 else hset k_user_agent [] h3.
 
-(* what http.Transport (as fabio configures it: compression not disabled) writes:
-   only the first User-Agent value and none when empty; "Accept-Encoding: gzip" of
-   its own when the request names no encoding and no range and is not HEAD *)
+(* what http.Transport as fabio configures it (transport.NewTransport: DisableCompression, since
+   fix 5e1efca) writes: only the first User-Agent value and none when empty; nothing of its own *)
 Definition wire_headers (method : str) (h : header) : header :=
   let ua := hget h k_user_agent in
-  let h1 := if nonempty ua then hset k_user_agent ua h else hdel k_user_agent h in
+  if nonempty ua then hset k_user_agent ua h else hdel k_user_agent h.
+
+(* before 5e1efca (compression left enabled): "Accept-Encoding: gzip" of the transport's own when
+   the request names no encoding and no range and is not HEAD.  Kept for the _unrepaired theorem. *)
+Definition wire_headers_unrepaired (method : str) (h : header) : header :=
+  let h1 := wire_headers method h in
   if negb (nonempty (hget h k_accept_encoding)) && negb (nonempty (hget h k_range)) && negb (beq method (bs "HEAD"%string))
   then hset k_accept_encoding (bs "gzip"%string) h1 else h1.
 
@@ -124,11 +128,38 @@ Definition fwd_host (o : route_opts) (client_host : str) : str :=
   (* net/http Request.write: an empty Host falls back to URL.Host *)
   if nonempty h then h else ro_thost o.
 
-(* the raw path + query the upstream is sent: the director copies Path and RawQuery into
-   the clone of the client's URL, whose RawPath and ForceQuery stay the client's *)
+(* the client's own encoding of the path, rewritten alongside (http_proxy.go, fix 402775d): the
+   strip prefix is taken off literally when the raw path literally starts with it, otherwise the
+   hint is given up (empty); the prepend option is put in front as it is *)
+Definition target_rawpath (path rawpath strip prepend : str) : str :=
+  let r1 := if strip_applies path strip
+            then (if has_prefix rawpath strip then slash_fix (skipn (length strip) rawpath) else [])
+            else rawpath in
+  if nonempty prepend then (if nonempty r1 then slash_fix (prepend ++ r1) else r1) else r1.
+
+(* the raw path + query the upstream is sent: the director copies Path, RawPath and RawQuery of the
+   target URL into the clone of the client's URL, whose ForceQuery stays the client's; net/url's
+   EscapedPath then uses RawPath only while it is a valid encoding of Path *)
 Definition fwd_target (o : route_opts) (p : parsed) : str :=
+  request_uri (target_path (p_path p) (ro_strip o) (ro_prepend o))
+              (target_rawpath (p_path p) (p_rawpath p) (ro_strip o) (ro_prepend o))
+              (merge_query (ro_tquery o) (p_rawquery p)) (p_force p).
+
+(* before 402775d: the director left the client's RawPath in place.  Kept for the _unrepaired theorem. *)
+Definition fwd_target_unrepaired (o : route_opts) (p : parsed) : str :=
   request_uri (target_path (p_path p) (ro_strip o) (ro_prepend o)) (p_rawpath p)
               (merge_query (ro_tquery o) (p_rawquery p)) (p_force p).
+
+(* Upgrade: websocket / Websocket: the request is written to the upstream connection from the
+   target URL itself (r.URL = targetURL; ws_handler.go: r.Write), which has no ForceQuery.
+   (method, request target, Host); the tunnel itself is property C09 *)
+Definition ws_forward (o : route_opts) (q : request) : outcome (str * str * str) :=
+  do p <- parse_target (rq_target q);
+  Ok (rq_method q,
+      request_uri (target_path (p_path p) (ro_strip o) (ro_prepend o))
+                  (target_rawpath (p_path p) (p_rawpath p) (ro_strip o) (ro_prepend o))
+                  (merge_query (ro_tquery o) (p_rawquery p)) false,
+      fwd_host o (rq_host q)).
 
 (* Err 1/2: net/url rejects the target / not origin-form; Err 3: Upgrade: websocket goes to the
    raw tunnel handler (property C09) *)
@@ -275,14 +306,36 @@ Definition opts_touch_path (o : route_opts) (raw : str) : bool :=
   | Ok p => strip_applies p (ro_strip o) || nonempty (ro_prepend o)
   | _ => false
   end.
-(* 1: a strip/prepend option applies to a raw path that is not in Go's canonical encoding *)
+(* bytes escape() leaves alone: such a string is its own encoding *)
+Definition plain (s : str) : bool := forallb (fun c => negb (should_escape c)) s.
+(* putting a '/' in front of the raw remainder and of its decoded form is the same thing *)
+Definition slash_ok (rest : str) : bool :=
+  match unescape rest with
+  | Ok d => Bool.eqb (has_prefix d [47]) (has_prefix rest [47])
+  | _ => false
+  end.
+(* the side-condition under which the repaired code keeps a non-canonical client encoding:
+   the strip prefix (if it applies) is spelled literally in the raw path, with plain bytes, and
+   cuts where a '/' can be put in front consistently; the prepend (if any) is plain *)
+Definition encoding_kept_cond (o : route_opts) (raw path : str) : bool :=
+  (negb (strip_applies path (ro_strip o))
+   || (plain (ro_strip o) && has_prefix raw (ro_strip o) && slash_ok (skipn (length (ro_strip o)) raw)))
+  && (negb (nonempty (ro_prepend o)) || plain (ro_prepend o)).
+(* 1 (narrowed by fix 402775d): a strip/prepend option applies to a valid, non-canonical raw path
+   and the side-condition fails (strip prefix itself percent-encoded in the request or cutting
+   in front of an encoded '/', strip/prepend option with a byte that needs escaping) *)
 Definition region_strip_encoding (o : route_opts) (target : str) : bool :=
-  let raw := raw_path_of target in opts_touch_path o raw && negb (canonical_raw raw).
-(* 2: no option applies; the raw path is not canonical and holds a byte validEncoded rejects *)
+  let raw := raw_path_of target in
+  match unescape raw with
+  | Ok path => opts_touch_path o raw && negb (canonical_raw raw) && valid_encoded raw
+               && negb (encoding_kept_cond o raw path)
+  | _ => false
+  end.
+(* 2: the raw path is not canonical and holds a byte validEncoded rejects (with or without options) *)
 Definition region_invalid_byte (o : route_opts) (target : str) : bool :=
   let raw := raw_path_of target in
-  negb (opts_touch_path o raw) && negb (canonical_raw raw) && negb (valid_encoded raw).
-(* 3: the transport adds Accept-Encoding: gzip of its own *)
+  negb (canonical_raw raw) && negb (valid_encoded raw).
+(* where the transport of before 5e1efca added Accept-Encoding: gzip (for the _unrepaired theorem) *)
 Definition region_gzip_added (q : request) : bool :=
   let h := fwd_headers (rq_headers q) in
   negb (nonempty (hget h k_accept_encoding)) && negb (nonempty (hget h k_range))
